@@ -403,6 +403,240 @@ theorem emitKeep_correct (N O : List α) (hN : (names N).Nodup) (hO : (names O).
   rw [emitKeep_eq N O hnr]
   exact emit_correct N O hN hO
 
+-- ---------------------------------------------------------------------------------------------------------------
+-- the down direction: the same walk over the new list, every statement inverted
+
+/-- what the walk prints for the down migration: a record without a namesake on the old side is dropped, one whose
+    namesake differs is dropped and the *old* record re-created, an equal one is left alone; then every record only the
+    old list has is created -/
+def emitDownOne (O : List α) (s : α) : List (IStmt α) :=
+  match O.find? (fun y => (nm y) == (nm s)) with
+  | none => [.drop (nm s)]
+  | some o => if o = s then [] else [.drop (nm s), .create o]
+
+def emitDown (N O : List α) : List (IStmt α) :=
+  N.flatMap (emitDownOne O) ++ (O.filter (fun o => !(names N).contains (nm o))).map IStmt.create
+
+theorem exec_drop {S : List α} {n : String} (h : ∃ x ∈ S, (nm x) = n) :
+    exec S (.drop n) = some (S.filter (fun y => (nm y) != n)) := by
+  obtain ⟨x, hx, he⟩ := h
+  have : S.any (fun y => (nm y) == n) = true := List.any_eq_true.mpr ⟨x, hx, by simpa using he⟩
+  simp [exec, this]
+
+theorem exec_create {S : List α} {o : α} (h : ∀ x ∈ S, (nm x) ≠ (nm o)) : exec S (.create o) = some (S ++ [o]) := by
+  have : S.any (fun y => (nm y) == (nm o)) = false := by
+    rw [List.any_eq_false]
+    intro x hx
+    simpa using h x hx
+  simp [exec, this]
+
+/-- the index list while the down walk has visited the prefix `P` of the new list: the new records of the names not yet
+    visited, the old records of the names visited -/
+def InvD (N O S P : List α) : Prop :=
+  S.Nodup ∧ ∀ x, x ∈ S ↔ (x ∈ N ∧ (nm x) ∉ names P) ∨ (x ∈ O ∧ (nm x) ∈ names P)
+
+theorem names_snoc (P : List α) (s : α) (n : String) : n ∈ names (P ++ [s]) ↔ n ∈ names P ∨ n = (nm s) := by
+  simp [names, eq_comm]
+
+theorem stepD (N O S P : List α) (s : α) (hN : (names N).Nodup) (hO : (names O).Nodup) (hinv : InvD N O S P)
+    (hsN : s ∈ N) (hsP : (nm s) ∉ names P) :
+    ∃ S', execAll S (emitDownOne O s) = some S' ∧ InvD N O S' (P ++ [s]) := by
+  obtain ⟨hnd, hmem⟩ := hinv
+  have hsS : s ∈ S := (hmem s).mpr (Or.inl ⟨hsN, hsP⟩)
+  have hfilt : ∀ x, x ∈ S.filter (fun y => (nm y) != (nm s)) ↔ x ∈ S ∧ (nm x) ≠ (nm s) := by
+    intro x; simp [List.mem_filter]
+  unfold emitDownOne
+  cases hf : O.find? (fun y => (nm y) == (nm s)) with
+  | none =>
+    have hnO : (nm s) ∉ names O := find?_none_name hf
+    refine ⟨S.filter (fun y => (nm y) != (nm s)), ?_, hnd.sublist List.filter_sublist, ?_⟩
+    · simp only [execAll, exec_drop ⟨s, hsS, rfl⟩, Option.bind_some]
+    · intro x
+      rw [hfilt, hmem, names_snoc]
+      constructor
+      · rintro ⟨h | h, hne⟩
+        · exact Or.inl ⟨h.1, fun hc => hc.elim h.2 hne⟩
+        · exact Or.inr ⟨h.1, Or.inl h.2⟩
+      · rintro (h | h)
+        · exact ⟨Or.inl ⟨h.1, fun hc => h.2 (Or.inl hc)⟩, fun he => h.2 (Or.inr he)⟩
+        · have hxne : (nm x) ≠ (nm s) := fun he => hnO (he ▸ List.mem_map_of_mem h.1)
+          rcases h.2 with h2 | h2
+          · exact ⟨Or.inr ⟨h.1, h2⟩, hxne⟩
+          · exact absurd h2 hxne
+  | some o =>
+    obtain ⟨hoO, hon⟩ := find?_name hf
+    simp only
+    by_cases heq : o = s
+    · subst heq
+      rw [if_pos rfl]
+      refine ⟨S, rfl, hnd, ?_⟩
+      intro x
+      rw [hmem, names_snoc]
+      constructor
+      · rintro (h | h)
+        · by_cases hxs : (nm x) = (nm o)
+          · have : x = o := eq_of_name hN h.1 hsN hxs
+            subst this
+            exact Or.inr ⟨hoO, Or.inr rfl⟩
+          · exact Or.inl ⟨h.1, fun hc => hc.elim h.2 hxs⟩
+        · exact Or.inr ⟨h.1, Or.inl h.2⟩
+      · rintro (h | h)
+        · exact Or.inl ⟨h.1, fun hc => h.2 (Or.inl hc)⟩
+        · rcases h.2 with h2 | h2
+          · exact Or.inr ⟨h.1, h2⟩
+          · have : x = o := eq_of_name hO h.1 hoO h2
+            subst this
+            exact Or.inl ⟨hsN, hsP⟩
+    · rw [if_neg heq]
+      have hfresh : ∀ x ∈ S.filter (fun y => (nm y) != (nm s)), (nm x) ≠ (nm o) := by
+        intro x hx
+        rw [hon]
+        exact ((hfilt x).mp hx).2
+      refine ⟨S.filter (fun y => (nm y) != (nm s)) ++ [o], ?_, ?_, ?_⟩
+      · simp only [execAll, exec_drop ⟨s, hsS, rfl⟩, Option.bind_some, exec_create hfresh]
+      · rw [List.nodup_append]
+        refine ⟨hnd.sublist List.filter_sublist, by simp, ?_⟩
+        intro a ha b hb hab
+        have : b = o := by simpa using hb
+        subst this
+        subst hab
+        exact hfresh a ha rfl
+      · intro x
+        rw [List.mem_append, hfilt, hmem, names_snoc]
+        constructor
+        · rintro (⟨h | h, hne⟩ | h)
+          · exact Or.inl ⟨h.1, fun hc => hc.elim h.2 hne⟩
+          · exact Or.inr ⟨h.1, Or.inl h.2⟩
+          · have : x = o := by simpa using h
+            subst this
+            exact Or.inr ⟨hoO, Or.inr hon⟩
+        · rintro (h | h)
+          · exact Or.inl ⟨Or.inl ⟨h.1, fun hc => h.2 (Or.inl hc)⟩, fun he => h.2 (Or.inr he)⟩
+          · rcases h.2 with h2 | h2
+            · have hxne : (nm x) ≠ (nm s) := fun he => hsP (he ▸ h2)
+              exact Or.inl ⟨Or.inr ⟨h.1, h2⟩, hxne⟩
+            · have : x = o := eq_of_name hO h.1 hoO (h2.trans hon.symm)
+              subst this
+              exact Or.inr (by simp)
+
+theorem phaseD (N O : List α) (hN : (names N).Nodup) (hO : (names O).Nodup) : ∀ (Q P S : List α),
+    (∀ x ∈ Q, x ∈ N) → (names (P ++ Q)).Nodup → InvD N O S P →
+    ∃ S', execAll S (Q.flatMap (emitDownOne O)) = some S' ∧ InvD N O S' (P ++ Q) := by
+  intro Q
+  induction Q with
+  | nil => intro P S _ _ h; exact ⟨S, rfl, by simpa using h⟩
+  | cons s Q ih =>
+    intro P S hQ hnd hinv
+    have hs : (nm s) ∉ names P := by
+      rw [names, List.map_append, List.nodup_append] at hnd
+      intro hm
+      exact hnd.2.2 (nm s) hm (nm s) (by simp) rfl
+    obtain ⟨S1, h1, hinv1⟩ := stepD N O S P s hN hO hinv (hQ s (by simp)) hs
+    have : P ++ s :: Q = (P ++ [s]) ++ Q := by simp
+    rw [this] at hnd ⊢
+    obtain ⟨S', h2, hinv2⟩ := ih (P ++ [s]) S1 (fun x hx => hQ x (by simp [hx])) hnd hinv1
+    refine ⟨S', ?_, hinv2⟩
+    rw [List.flatMap_cons, execAll_append, h1, Option.bind_some]
+    exact h2
+
+theorem creates : ∀ (L S : List α), (names L).Nodup → (∀ o ∈ L, ∀ x ∈ S, (nm x) ≠ (nm o)) →
+    execAll S (L.map IStmt.create) = some (S ++ L) := by
+  intro L
+  induction L with
+  | nil => intro S _ _; simp [execAll]
+  | cons o L ih =>
+    intro S hnd hfr
+    rw [names, List.map_cons, List.nodup_cons] at hnd
+    simp only [List.map_cons, execAll, exec_create (hfr o (by simp)), Option.bind_some]
+    rw [ih (S ++ [o]) hnd.2]
+    · simp
+    · intro o' ho' x hx
+      rcases List.mem_append.mp hx with h | h
+      · exact hfr o' (by simp [ho']) x h
+      · have : x = o := by simpa using h
+        subst this
+        intro he
+        exact hnd.1 (he ▸ List.mem_map_of_mem ho')
+
+/-- **the index clause, down direction**: from the new list, every statement of `emitDown N O` is well-formed and the
+    result is the old list up to order -/
+theorem emitDown_correct (N O : List α) (hN : (names N).Nodup) (hO : (names O).Nodup) :
+    ∃ R, execAll N (emitDown N O) = some R ∧ R.Perm O := by
+  have h0 : InvD N O N [] := ⟨nodup_of_names hN, by intro x; simp [names]⟩
+  obtain ⟨S, h1, hnd, hmem⟩ := phaseD N O hN hO N [] N (fun x hx => hx) (by simpa using hN) h0
+  rw [List.nil_append] at hmem
+  have hS : ∀ x, x ∈ S ↔ x ∈ O ∧ (nm x) ∈ names N := by
+    intro x
+    rw [hmem]
+    constructor
+    · rintro (h | h)
+      · exact absurd (List.mem_map_of_mem h.1) h.2
+      · exact h
+    · intro h; exact Or.inr h
+  let L := O.filter (fun o => !(names N).contains (nm o))
+  have hLnd : (names L).Nodup := (List.filter_sublist.map _).nodup hO
+  have hLfr : ∀ o ∈ L, ∀ x ∈ S, (nm x) ≠ (nm o) := by
+    intro o ho x hx he
+    have h1 := ((hS x).mp hx).2
+    have h2 := (List.mem_filter.mp ho).2
+    rw [he] at h1
+    simp [h1] at h2
+  refine ⟨S ++ L, ?_, ?_⟩
+  · unfold emitDown
+    rw [execAll_append, h1, Option.bind_some]
+    exact creates L S hLnd hLfr
+  · have hOnd := nodup_of_names hO
+    have hnd' : (S ++ L).Nodup := by
+      rw [List.nodup_append]
+      refine ⟨hnd, hOnd.sublist List.filter_sublist, ?_⟩
+      intro a ha b hb hab
+      subst hab
+      exact hLfr a hb a ha rfl
+    rw [List.perm_ext_iff_of_nodup hnd' hOnd]
+    intro x
+    rw [List.mem_append, hS, List.mem_filter]
+    constructor
+    · rintro (h | h)
+      · exact h.1
+      · exact h.1
+    · intro hx
+      by_cases hn : (nm x) ∈ names N
+      · exact Or.inl ⟨hx, hn⟩
+      · exact Or.inr ⟨hx, by simpa using hn⟩
+
+/-- the down emission for records never redefined in place -/
+def emitDownKeep (N O : List α) : List (IStmt α) :=
+  (N.filter (fun s => !(names O).contains (nm s))).map (fun s => IStmt.drop (nm s)) ++
+    (O.filter (fun o => !(names N).contains (nm o))).map IStmt.create
+
+theorem emitDownKeep_eq (N O : List α) (hnr : ∀ s ∈ N, ∀ o ∈ O, (nm s) = (nm o) → s = o) :
+    emitDownKeep N O = emitDown N O := by
+  unfold emitDownKeep emitDown
+  congr 1
+  induction N with
+  | nil => rfl
+  | cons s r ih =>
+    rw [List.flatMap_cons, ← ih (fun x hx => hnr x (by simp [hx])), List.filter_cons]
+    unfold emitDownOne
+    cases hf : O.find? (fun y => (nm y) == (nm s)) with
+    | none =>
+      have : (!(names O).contains (nm s)) = true := by simpa using find?_none_name hf
+      rw [this]
+      rfl
+    | some o =>
+      obtain ⟨hoO, hon⟩ := find?_name hf
+      have : s = o := hnr s (by simp) o hoO hon.symm
+      have hc : (!(names O).contains (nm s)) = false := by
+        have : (nm s) ∈ names O := hon ▸ List.mem_map_of_mem hoO
+        simpa using this
+      rw [hc]
+      simp [this]
+
+theorem emitDownKeep_correct (N O : List α) (hN : (names N).Nodup) (hO : (names O).Nodup)
+    (hnr : ∀ s ∈ N, ∀ o ∈ O, (nm s) = (nm o) → s = o) : ∃ R, execAll N (emitDownKeep N O) = some R ∧ R.Perm O := by
+  rw [emitDownKeep_eq N O hnr]
+  exact emitDown_correct N O hN hO
+
 -- the statements are non-trivial and the hypotheses satisfiable
 example : emit (α := IdxSpec) [⟨"a", ["x"], false, "BTREE"⟩, ⟨"b", ["y"], true, "BTREE"⟩, ⟨"n", ["z"], false, "HASH"⟩]
               [⟨"b", ["x", "y"], true, "BTREE"⟩, ⟨"a", ["x"], false, "BTREE"⟩, ⟨"old", ["x"], false, "BTREE"⟩] =
